@@ -217,6 +217,14 @@ def gen_case(prop, seed, p_fault=0.6):
         pspace, prows = gen_prows(r, pspace)
         entry = gen_entry(r, rng, dom, [tuple(p) for p in pspace], prows)
         fault = gen_fault(r, seed, p_fault)
+        if entry.get("cls", "").startswith("Adaptive") and entry.get("calls", 1) > 1 and prows:
+            # histories whose rounds are called with different parameter rows: rotations of
+            # the same rows (filters and means were validated at exactly these rows)
+            r2 = rnd(seed, "adaptive-params")
+            if len(prows) >= 2 and r2.random() < 0.7:
+                entry["prows_seq"] = [prows[j + 1:] + prows[:j + 1] for j in range(entry["calls"] - 1)]
+            elif len(prows) == 1 and not entry.get("filter") and r2.random() < 0.7:
+                entry["prows_seq"] = [[[GG.q(r2.uniform(0, 1)) for _ in pspace]] for _ in range(entry["calls"] - 1)]
     return {"format": 1, "property": prop, "engine": "geosim", "seed": seed,
             "rng": H(seed, "rng"), "dom": dom, "pspace": pspace, "prows": prows,
             "entry": entry, "fault": fault}
